@@ -27,11 +27,16 @@ fn run_case(case: &Value) -> Vec<Value> {
         .unwrap_or_default();
     let njobs = jobs.len();
     // signals: {"after": k (number of finished jobs), "delay": d seconds after that job finished, "sig": name}
-    let signals: Vec<(usize, u64, String)> = case["signals"]
+    // "same_poll": the signal is raised one second before `delay` and the clock advanced at once, without letting the
+    // loop run in between - signal and timer (if the loop waits exactly `delay`) become ready in the same poll
+    let signals: Vec<(usize, u64, String, bool)> = case["signals"]
         .as_array()
         .map(|a| {
             a.iter()
-                .map(|s| (s["after"].as_u64().unwrap_or(0) as usize, s["delay"].as_u64().unwrap_or(1), s["sig"].as_str().unwrap_or("term").to_string()))
+                .map(|s| {
+                    (s["after"].as_u64().unwrap_or(0) as usize, s["delay"].as_u64().unwrap_or(1), s["sig"].as_str().unwrap_or("term").to_string(),
+                     s["same_poll"].as_bool().unwrap_or(false))
+                })
                 .collect()
         })
         .unwrap_or_default();
@@ -52,7 +57,7 @@ fn run_case(case: &Value) -> Vec<Value> {
         let mut finished = 0usize;   // jobs finished
         let mut running = false;
         let mut last_finish = 0u64;
-        let mut pending: Vec<(usize, u64, String)> = signals;
+        let mut pending: Vec<(usize, u64, String, bool)> = signals;
         let mut log: Vec<Event> = Vec::new();
         let mut sec = 0u64;
         loop {
@@ -82,9 +87,18 @@ fn run_case(case: &Value) -> Vec<Value> {
                 let now = sec;
                 let mut k = 0;
                 while k < pending.len() {
-                    let (after, delay, _) = &pending[k];
-                    if *after == finished && now == last_finish + *delay {
-                        let (_, _, name) = pending.remove(k);
+                    let (after, delay, _, same_poll) = &pending[k];
+                    if *same_poll && *after == finished && now + 1 == last_finish + *delay {
+                        let (_, _, name, _) = pending.remove(k);
+                        out.push(json!({"ev": "signal", "t": now + 1, "sig": name, "same_poll": true}));
+                        unsafe {
+                            libc::raise(sig(&name));
+                        }
+                        // no settle: the loop is polled next when the clock has moved on
+                        continue;
+                    }
+                    if !*same_poll && *after == finished && now == last_finish + *delay {
+                        let (_, _, name, _) = pending.remove(k);
                         out.push(json!({"ev": "signal", "t": now, "sig": name}));
                         unsafe {
                             libc::raise(sig(&name));
